@@ -7,6 +7,7 @@ from ..spec import specjson as sj, specmsg as sm, specwire as sw
 from .c06 import presence_report
 from .c09 import gen_unknown
 
+WARMUP = True  # a concrete first use of the harness before each path (vf/explore.py: WarmEnv)
 PROPERTY = "C14"
 B1 = Bounds(rep=1, mapn=1, strlen=1, depth=2, narrow=True)
 
